@@ -17,6 +17,7 @@
 //                         it in preorder and prints the raw tree.search(i, k) result of every sample
 //   Q <k>                 builds the cover tree as find_neighbors_covertree_impl does and prints the raw
 //                         candidate lists res[i] of k_nearest_neighbor(.., k) (k as passed, no ++)
+//   D                     builds the cover tree the same way and dumps it in preorder
 //   END                   ends the case
 // stdout: "C <n>" (flushed) before each case so that an abort can be attributed, then per command
 //   F: "F <method> <k> <nrows>" then nrows lines "r <i> : j j j ..."
@@ -24,6 +25,7 @@
 //   T: "T <k> <nnodes>", "P p p p ..." (pivot offsets drawn, in call order),
 //      nnodes lines "n <item> <thr hexfloat> <hasleft> <hasright>" (preorder), then N lines "s <i> : j j ..."
 //   Q: "Q <k> <nrows>" then "c <query> : j j j ..." per row
+//   D: "D <nnodes>" then nnodes lines "t <sample> <max_dist hexfloat> <parent_dist hexfloat> <scale> <num_children> <children.size()>"
 //   "END" closes the case.
 #include <algorithm>
 #include <cmath>
@@ -194,6 +196,29 @@ template <class CB> static void cmd_cover(int k, Samples& s, CB cb)
     }
 }
 
+template <class TreePoint> static void dump_ct(const node<TreePoint>& n, It begin, std::vector<std::string>& out)
+{
+    char buf[160];
+    snprintf(buf, sizeof buf, "t %d %a %a %d %d %zu", (int)(n.p.iter_ - begin), n.max_dist, n.parent_dist, (int)n.scale,
+             (int)n.num_children, n.children.size());
+    out.push_back(buf);
+    for (int i = 0; i < (int)n.num_children && i < (int)n.children.size(); i++) dump_ct(n.children[i], begin, out);
+}
+
+// D: the cover tree exactly as find_neighbors_covertree_impl builds it, in preorder
+template <class CB> static void cmd_dump_cover(Samples& s, CB cb)
+{
+    typedef CoverTreePoint<It> TreePoint;
+    v_array<TreePoint> points;
+    for (It iter = s.begin(); iter != s.end(); ++iter) push(points, TreePoint(iter, cb(iter, iter)));
+    CoverTreeWrapper<TreePoint, CB> cover_tree;
+    node<TreePoint> ct = cover_tree.batch_create(cb, points);
+    std::vector<std::string> nodes;
+    dump_ct(ct, s.begin(), nodes);
+    printf("D %zu\n", nodes.size());
+    for (size_t i = 0; i < nodes.size(); i++) printf("%s\n", nodes[i].c_str());
+}
+
 template <class CB> static void dispatch(const std::string& cmd, std::istringstream& is, Samples& s, CB cb)
 {
     if (cmd == "F")
@@ -221,6 +246,10 @@ template <class CB> static void dispatch(const std::string& cmd, std::istringstr
         int k;
         is >> k;
         cmd_cover(k, s, cb);
+    }
+    else if (cmd == "D")
+    {
+        cmd_dump_cover(s, cb);
     }
 }
 
